@@ -8,6 +8,7 @@ connections-free / voice-assistant messages, with unsubscribe calls and handler 
 handler call (with the converted values checked against an oracle built from the message's own fields) and every frame written
 must equal the extracted model's, and the property's predicate (computed here from the story alone) is evaluated on the
 implementation."""
+from vlib.privnames import priv, has_priv
 import asyncio
 import dataclasses
 import enum
@@ -786,7 +787,7 @@ def self_unsub_probe(kind, who, bad_name=False):
                 tr.feed(simnet.plain_msg(m))
                 await simnet.drain(loop)
                 per_msg.append(sorted(log))
-            alive = cli._connection is not None and cli._connection.is_connected
+            alive = priv(cli, "_connection") is not None and priv(cli, "_connection").is_connected
             await cli.disconnect(force=True)
             await simnet.drain(loop)
         return per_msg, alive
